@@ -4,7 +4,7 @@
    a sample of every run (the in-kernel sample), so the extraction itself is checked. *)
 From Coq Require Import List Ascii String Bool Arith NArith ZArith.
 Require Import Show.
-Require V1 V5 V6 V3 V11 A1 D3 M6 M6b GS R2 AR AR2 AR3 CL.
+Require V1 V5 V6 V3 V11 A1 D3 M6 M6b GS R2 AR AR2 AR3 CL TS3.
 Import ListNotations.
 Open Scope string_scope.
 Open Scope list_scope.
@@ -240,6 +240,19 @@ Definition run_changelog (op : string) (a : list str) : option str :=
           | None => lit "err" end)
   else None.
 
+(* ---- build ordering: C19 ---- *)
+Definition run_order (op : string) (a : list str) : option str :=
+  let g n := nth_arg n a in
+  if op =? "dscorder" then
+    (* abi os cpu, then one .dsc text per argument *)
+    Some (match TS3.order_texts (m6arch (g 0) (g 1) (g 2)) (skipn 3 a) with
+          | TS3.OOrder names => lit "ok " ++ show_list hx names
+          | TS3.OCycle => lit "err"
+          | TS3.OParseError => lit "parse-error"
+          | TS3.OFuel => lit "out-of-fuel"
+          end)
+  else None.
+
 Definition run (op : string) (hexargs : list str) : str :=
   let a := map unhex hexargs in
   match run_version op a with Some r => r | None =>
@@ -247,4 +260,5 @@ Definition run (op : string) (hexargs : list str) : str :=
   match run_deb822 op a with Some r => r | None =>
   match run_ar op a with Some r => r | None =>
   match run_changelog op a with Some r => r | None =>
-  lit "unknown-op" end end end end end.
+  match run_order op a with Some r => r | None =>
+  lit "unknown-op" end end end end end end.
